@@ -511,6 +511,10 @@ func parseContractFile(path string, pc *PkgContracts) error {
 				if cur.CallSites == nil {
 					cur.CallSites = map[string]*CallSiteSpec{}
 				}
+				if (f[0] == "invoke" || f[0] == "dynamic") && len(f) >= 4 {
+					// two-word site names: `invoke T.M#1`, `dynamic FuncType#1`
+					f = append([]string{f[0] + " " + f[1]}, f[2:]...)
+				}
 				cs := cur.CallSites[f[0]]
 				if cs == nil {
 					cs = &CallSiteSpec{}
@@ -555,7 +559,9 @@ func parseContractFile(path string, pc *PkgContracts) error {
 				if err != nil {
 					return fail(c, "%v", err)
 				}
-				cur.Ghosts = append(cur.Ghosts, Clause{Expr: e, Src: strings.TrimSpace(c.text[eqi+1:]), Name: f[0], Site: f[2]})
+				ai := strings.Index(c.text, " after ")
+				site := strings.TrimSpace(c.text[ai+len(" after ") : eqi]) // may contain a space: `invoke T.M#1`
+				cur.Ghosts = append(cur.Ghosts, Clause{Expr: e, Src: strings.TrimSpace(c.text[eqi+1:]), Name: f[0], Site: site})
 			case "assert":
 				// assert LABEL after CALLEE#N: EXPR    -- intermediate assertion (a cut): proved right after that call
 				// (once its results have been assigned), then available to everything that follows
@@ -563,9 +569,13 @@ func parseContractFile(path string, pc *PkgContracts) error {
 				if len(f) < 4 || f[1] != "after" {
 					return fail(c, "assert needs `LABEL after CALLEE#N: EXPR`")
 				}
-				site := strings.TrimSuffix(f[2], ":")
-				i := strings.Index(c.text, f[2])
-				rest := strings.TrimSpace(strings.TrimPrefix(strings.TrimSpace(c.text[i+len(f[2]):]), ":"))
+				sf := f[2]
+				if (sf == "invoke" || sf == "dynamic") && len(f) >= 5 {
+					sf = f[2] + " " + f[3]
+				}
+				site := strings.TrimSuffix(sf, ":")
+				i := strings.Index(c.text, sf)
+				rest := strings.TrimSpace(strings.TrimPrefix(strings.TrimSpace(c.text[i+len(sf):]), ":"))
 				e, err := ParseExpr(rest)
 				if err != nil {
 					return fail(c, "%v", err)
